@@ -1,4 +1,5 @@
 """C05 Random streams are a pure, contract-respecting function of the seed."""
+import ast
 import json
 import math
 import os
@@ -93,6 +94,223 @@ def seed_for_model(sd):
     return {"bytes": list(str(v).encode("utf-8"))}
 
 
+# ---- translator: facts read off coba/random.py with `ast` (see Model/C05.lean srcFacts/srcNums)
+MODEL_FACTS = [("init.int_types", "int"), ("init.float_guard", "float.is_integer"), ("init.int_conv", "int"),
+               ("init.str_conv", "str"), ("init.encoding", "utf-8"), ("init.byteorder", "big"),
+               ("init.falsy_fallback", "time.time"), ("uniform.step_op", "&"), ("uniform.yield_op", "/"),
+               ("choice.cmp", "__lt__"), ("choice.unweighted_conv", "int"), ("reduce.args", "_seed"),
+               ("module.seed", "_random=CobaRandom(seed)"),
+               ("module.delegates", "random,randoms,shuffle,randint,randints,choice,choicew,gauss,gausses"),
+               ("gauss.zero_guard", "while U == 0")]
+MODEL_NUMS = [("init.str_mod", 1048576), ("uniform.mask_sub", 1),
+              ("default.random.min", 0), ("default.random.max", 1), ("default.randoms.min", 0), ("default.randoms.max", 1),
+              ("default.gauss.mu", 0), ("default.gauss.sigma", 1), ("default.gausses.mu", 0), ("default.gausses.sigma", 1),
+              ("gauss.log_coef", -2), ("gauss.angle_coef", 2), ("randint.plus", 1), ("randints.plus", 1)]
+BINOPS = {ast.BitAnd: "&", ast.Mod: "%", ast.BitOr: "|", ast.Div: "/", ast.FloorDiv: "//", ast.Mult: "*", ast.Add: "+", ast.Sub: "-"}
+
+
+def const_int(n):
+    """value of an integer expression made of literals (2**20, -2, 1<<20)"""
+    if isinstance(n, ast.Constant) and isinstance(n.value, int) and not isinstance(n.value, bool):
+        return n.value
+    if isinstance(n, ast.UnaryOp) and isinstance(n.op, ast.USub):
+        return -const_int(n.operand)
+    if isinstance(n, ast.BinOp):
+        l, r = const_int(n.left), const_int(n.right)
+        if isinstance(n.op, ast.Pow): return l ** r
+        if isinstance(n.op, ast.Mult): return l * r
+        if isinstance(n.op, ast.LShift): return l << r
+        if isinstance(n.op, ast.Add): return l + r
+        if isinstance(n.op, ast.Sub): return l - r
+    raise ValueError("not an integer literal expression: " + ast.dump(n)[:80])
+
+
+def dotted(n):
+    if isinstance(n, ast.Name): return n.id
+    if isinstance(n, ast.Attribute): return dotted(n.value) + "." + n.attr
+    raise ValueError("not a dotted name")
+
+
+def is_call(n, name=None, nargs=None):
+    return isinstance(n, ast.Call) and (name is None or (isinstance(n.func, (ast.Name, ast.Attribute)) and dotted(n.func) == name)) and (nargs is None or len(n.args) == nargs)
+
+
+def extract_source_facts(repo):
+    """Read the facts `Model/C05.lean: srcFacts/srcNums` lists off coba/random.py with `ast`. Returns (facts, nums, not_extracted).
+    Only recognised shapes are read; an unrecognised (reshaped) place keeps the model's value and is listed in not_extracted."""
+    tree = ast.parse(open(os.path.join(repo, "coba", "random.py"), encoding="utf-8").read())
+    cls = next(n for n in tree.body if isinstance(n, ast.ClassDef) and n.name == "CobaRandom")
+    meth = {n.name: n for n in cls.body if isinstance(n, ast.FunctionDef)}
+    mod = {n.name: n for n in tree.body if isinstance(n, ast.FunctionDef)}
+    facts, nums, missing = dict(MODEL_FACTS), dict(MODEL_NUMS), []
+
+    def attempt(keys, fn):
+        try:
+            r = fn()
+            for k in keys:
+                (facts if k in facts else nums)[k] = r[k]
+        except Exception:
+            missing.extend(keys)
+
+    def init_branches():
+        init = meth["__init__"]
+        iff = next(n for n in init.body if isinstance(n, ast.If))
+        t = iff.test
+        disj = t.values if isinstance(t, ast.BoolOp) and isinstance(t.op, ast.Or) else [t]
+        ints, guards = [], []
+        for d in disj:
+            if is_call(d, "isinstance", 2) and dotted(d.args[0]) == "seed":
+                ints.append(dotted(d.args[1]))
+            elif isinstance(d, ast.BoolOp) and isinstance(d.op, ast.And) and len(d.values) == 2 and is_call(d.values[0], "isinstance", 2) \
+                    and is_call(d.values[1], None, 0) and dotted(d.values[1].func).startswith("seed."):
+                guards.append(dotted(d.values[0].args[1]) + "." + dotted(d.values[1].func)[5:])
+            else:
+                raise ValueError("unrecognised disjunct")
+        a = iff.body[0]
+        if not (len(iff.body) == 1 and isinstance(a, ast.Assign) and dotted(a.targets[0]) == "seed" and is_call(a.value, None, 1) and dotted(a.value.args[0]) == "seed"):
+            raise ValueError("int branch")
+        return {"init.int_types": ",".join(ints), "init.float_guard": ",".join(guards), "init.int_conv": dotted(a.value.func)}
+
+    def init_else():
+        init = meth["__init__"]
+        iff = next(n for n in init.body if isinstance(n, ast.If))
+        a = iff.orelse[0]
+        if not (len(iff.orelse) == 1 and isinstance(a, ast.Assign) and dotted(a.targets[0]) == "seed" and isinstance(a.value, ast.BinOp) and isinstance(a.value.op, ast.Mod)):
+            raise ValueError("else branch")
+        fb = a.value.left
+        if not is_call(fb, "int.from_bytes"):
+            raise ValueError("from_bytes")
+        order = fb.args[1] if len(fb.args) > 1 else next(k.value for k in fb.keywords if k.arg == "byteorder")
+        enc = fb.args[0]
+        if not (isinstance(enc, ast.Call) and isinstance(enc.func, ast.Attribute) and enc.func.attr == "encode"):
+            raise ValueError("encode")
+        encoding = enc.args[0].value if enc.args else "utf-8"
+        sc = enc.func.value
+        if not is_call(sc, None, 1):
+            raise ValueError("str")
+        arg = sc.args[0]
+        if isinstance(arg, ast.BoolOp) and isinstance(arg.op, ast.Or) and len(arg.values) == 2 and dotted(arg.values[0]) == "seed" and is_call(arg.values[1], None, 0):
+            fallback = dotted(arg.values[1].func)
+        elif isinstance(arg, ast.Name) and arg.id == "seed":
+            fallback = ""
+        else:
+            raise ValueError("fallback")
+        return {"init.str_conv": dotted(sc.func), "init.encoding": encoding, "init.byteorder": order.value, "init.falsy_fallback": fallback,
+                "init.str_mod": const_int(a.value.right)}
+
+    def uniform():
+        f = meth["_next_uniform"]
+        a_, s_, c_, m_ = [x.arg for x in f.args.args[1:5]]
+        loop = next(n for n in f.body if isinstance(n, ast.While))
+        pre = {dotted(n.targets[0]): n.value for n in f.body if isinstance(n, ast.Assign)}
+        st = next(n for n in loop.body if isinstance(n, ast.Assign) and dotted(n.targets[0]) == s_)
+        v = st.value
+        if not (isinstance(v, ast.BinOp) and type(v.op) in BINOPS):
+            raise ValueError("step")
+        lin = v.left
+        ok = isinstance(lin, ast.BinOp) and isinstance(lin.op, ast.Add) and isinstance(lin.left, ast.BinOp) and isinstance(lin.left.op, ast.Mult) \
+            and {dotted(lin.left.left), dotted(lin.left.right)} == {a_, s_} and dotted(lin.right) == c_
+        if not ok:
+            raise ValueError("affine part")
+        mask = v.right
+        if isinstance(mask, ast.Name) and mask.id in pre:
+            mask = pre[mask.id]
+        if isinstance(mask, ast.BinOp) and isinstance(mask.op, ast.Sub) and dotted(mask.left) == m_:
+            sub = const_int(mask.right)
+        elif isinstance(mask, ast.Name) and mask.id == m_:
+            sub = 0
+        else:
+            raise ValueError("mask")
+        y = next(n.value for n in loop.body if isinstance(n, ast.Expr) and isinstance(n.value, ast.Yield)).value
+        if not (isinstance(y, ast.BinOp) and dotted(y.left) == s_ and dotted(y.right) == m_):
+            raise ValueError("yield")
+        return {"uniform.step_op": BINOPS[type(v.op)], "uniform.mask_sub": sub, "uniform.yield_op": BINOPS[type(y.op)]}
+
+    def choice_cmp():
+        f = meth["choice"]
+        names = [n.attr for n in ast.walk(f) if isinstance(n, ast.Attribute) and n.attr in ("__lt__", "__le__", "__gt__", "__ge__")]
+        if len(names) != 1:
+            raise ValueError("comparator")
+        sub = [n for n in ast.walk(f) if isinstance(n, ast.Subscript) and dotted(n.value) == "seq" and is_call(n.slice, None, 1)]
+        if len(sub) != 1:
+            raise ValueError("unweighted")
+        return {"choice.cmp": names[0], "choice.unweighted_conv": dotted(sub[0].slice.func)}
+
+    def reduce_args():
+        r = next(n for n in ast.walk(meth["__reduce__"]) if isinstance(n, ast.Return)).value
+        if not (isinstance(r, ast.Tuple) and dotted(r.elts[0]) == "CobaRandom" and isinstance(r.elts[1], ast.Tuple)):
+            raise ValueError("reduce")
+        return {"reduce.args": ",".join(dotted(e)[5:] if dotted(e).startswith("self.") else dotted(e) for e in r.elts[1].elts)}
+
+    def module_seed():
+        f = mod["seed"]
+        g = [n for n in f.body if isinstance(n, ast.Global)]
+        a = [n for n in f.body if isinstance(n, ast.Assign)]
+        if not (g and len(a) == 1 and dotted(a[0].targets[0]) in g[0].names and is_call(a[0].value, None, 1)):
+            raise ValueError("seed")
+        return {"module.seed": "%s=%s(%s)" % (dotted(a[0].targets[0]), dotted(a[0].value.func), dotted(a[0].value.args[0]))}
+
+    def module_delegates():
+        good = []
+        for name in ("random", "randoms", "shuffle", "randint", "randints", "choice", "choicew", "gauss", "gausses"):
+            f = mod[name]
+            body = [n for n in f.body if not (isinstance(n, ast.Expr) and isinstance(n.value, ast.Constant))]
+            r = body[0]
+            params = [x.arg for x in f.args.args]
+            if not (len(body) == 1 and isinstance(r, ast.Return) and isinstance(r.value, ast.Call) and not r.value.keywords
+                    and dotted(r.value.func).startswith("_random.") and all(isinstance(x, ast.Name) for x in r.value.args)):
+                raise ValueError("module function %s reshaped" % name)
+            if dotted(r.value.func) == "_random." + name and [x.id for x in r.value.args] == params and params == [x.arg for x in meth[name].args.args[1:]]:
+                good.append(name)
+        return {"module.delegates": ",".join(good)}
+
+    def defaults():
+        out = {}
+        for name, ps in (("random", ("min", "max")), ("randoms", ("min", "max")), ("gauss", ("mu", "sigma")), ("gausses", ("mu", "sigma"))):
+            vals = []
+            for f in (meth[name], mod[name]):
+                args = [x.arg for x in f.args.args]
+                d = dict(zip(args[len(args) - len(f.args.defaults):], f.args.defaults))
+                vals.append(tuple(const_int(d[p]) for p in ps))
+            # method and module function must both have the model's defaults: a differing one is the one reported
+            for p, v in zip(ps, vals[1] if vals[1] != vals[0] and vals[0] == tuple(dict(MODEL_NUMS)["default.%s.%s" % (name, q)] for q in ps) else vals[0]):
+                out["default.%s.%s" % (name, p)] = v
+        return out
+
+    def gauss_consts():
+        f = meth["_next_gaussian"]
+        loop = next(n for n in f.body if isinstance(n, ast.While))
+        inner = [n for n in loop.body if isinstance(n, ast.While)]
+        guard = ("while " + ast.unparse(inner[0].test)) if inner else ""
+        asg = {dotted(n.targets[0]): n.value for n in loop.body if isinstance(n, ast.Assign)}
+        R = asg["R"].args[0]          # sqrt(<coef>*log(U))
+        S = asg["S"]                  # <coef>*pi*next(...)
+        return {"gauss.zero_guard": guard, "gauss.log_coef": const_int(R.left), "gauss.angle_coef": const_int(S.left.left)}
+
+    def plus_one():
+        ri = next(n for n in ast.walk(meth["randint"]) if isinstance(n, ast.Return)).value      # a+floor((b-a+1)*next(...))
+        inner = ri.right.args[0].left
+        p1 = const_int(inner.right)
+        if not (isinstance(inner.op, ast.Add)):
+            raise ValueError("randint")
+        a = next(n for n in meth["randints"].body if isinstance(n, ast.Assign) and dotted(n.targets[0]) == "b")   # b=b+1
+        if not (isinstance(a.value, ast.BinOp) and isinstance(a.value.op, ast.Add) and dotted(a.value.left) == "b"):
+            raise ValueError("randints")
+        return {"randint.plus": p1, "randints.plus": const_int(a.value.right)}
+
+    attempt(["init.int_types", "init.float_guard", "init.int_conv"], init_branches)
+    attempt(["init.str_conv", "init.encoding", "init.byteorder", "init.falsy_fallback", "init.str_mod"], init_else)
+    attempt(["uniform.step_op", "uniform.mask_sub", "uniform.yield_op"], uniform)
+    attempt(["choice.cmp", "choice.unweighted_conv"], choice_cmp)
+    attempt(["reduce.args"], reduce_args)
+    attempt(["module.seed"], module_seed)
+    attempt(["module.delegates"], module_delegates)
+    attempt([k for k, _ in MODEL_NUMS if k.startswith("default.")], defaults)
+    attempt(["gauss.zero_guard", "gauss.log_coef", "gauss.angle_coef"], gauss_consts)
+    attempt(["randint.plus", "randints.plus"], plus_one)
+    return [(k, facts[k]) for k, _ in MODEL_FACTS], [(k, nums[k]) for k, _ in MODEL_NUMS], missing
+
+
 ERRS = {ValueError: "ValueError", IndexError: "IndexError", StopIteration: "StopIteration", ZeroDivisionError: "ZeroDivisionError",
         TypeError: "TypeError"}
 
@@ -116,7 +334,65 @@ def ident_index(seq, r):
     raise RuntimeError("choice returned an object that is not a member of the sequence: %r" % (r,))
 
 
+class _Via:
+    """a caller of CobaRandom (PMFPredictor / PMFInfoPredictor / SafeLearner over a PMF-returning learner);
+    `cur["w"]` is the pmf the next predict() will be answered with"""
+    def __init__(self, obj, cur):
+        self.obj, self.cur = obj, cur
+
+
+class _PmfLearner:
+    def __init__(self, cur):
+        self.cur = cur
+    def predict(self, context, actions):
+        return self.cur["w"]
+    def learn(self, *a, **k):
+        pass
+
+
+def build_via(sd, insts):
+    via, seed = sd["via"], mk_seed(sd)
+    cur = {"w": None}
+    if via == "pmf":
+        from coba.learners.utilities import PMFPredictor
+        return _Via(PMFPredictor(lambda c, a: cur["w"], seed), cur)
+    if via == "pmfinfo":
+        from coba.learners.utilities import PMFInfoPredictor
+        return _Via(PMFInfoPredictor(lambda c, a: (cur["w"], {"k": 1}), seed), cur)
+    from coba.safety import SafeLearner
+    if sd.get("of") is not None:       # SafeLearner(<the SafeLearner object of instance `of`>, seed): re-wrapping a live wrapper
+        base = insts[sd["of"]]
+        return _Via(SafeLearner(base.obj, seed), base.cur)
+    lrn = _PmfLearner(cur)
+    if sd.get("inner") is not None:    # SafeLearner(SafeLearner(l, inner), seed)
+        lrn = SafeLearner(lrn, mk_seed(sd["inner"]))
+    return _Via(SafeLearner(lrn, seed), cur)
+
+
+def standalone_seed(case, i):
+    """the seed record of instance i for a run on its own (a re-wrap of a live instance becomes a re-wrap of a fresh one)"""
+    sd = dict(case["seeds"][i])
+    if sd.get("of") is not None:
+        j = sd.pop("of")
+        sd["inner"] = {k: v for k, v in case["seeds"][j].items() if k in ("kind", "v")}
+    return sd
+
+
+def plain_seed(sd):
+    return {k: v for k, v in sd.items() if k in ("kind", "v")}
+
+
 def run_history(case, fork=False):
+    from coba.context import CobaContext, NullLogger
+    old = CobaContext._logger
+    CobaContext.logger = NullLogger()      # SafeLearner logs a deprecation warning for PMF answers
+    try:
+        return _run_history(case, fork)
+    finally:
+        CobaContext._logger = old
+
+
+def _run_history(case, fork=False):
     """run the history against the real coba.random; returns list of outputs (one per hist entry).
     fork=True: the generators are created (and the module-level one seeded) in this process, the calls are
     then made in a child created by os.fork() -- a forked child must continue the same streams."""
@@ -127,6 +403,8 @@ def run_history(case, fork=False):
         if sd.get("module"):
             cr.seed(mk_seed(sd))
             insts.append(None)
+        elif sd.get("via"):
+            insts.append(build_via(sd, insts))
         else:
             insts.append(cr.CobaRandom(mk_seed(sd)))
     if fork:
@@ -155,6 +433,7 @@ def _run_calls(case, cr, pyrandom, insts):
     outs = []
     other = cr.CobaRandom(12345)
     shared_w = {}
+    via_seqs = {}
     for h in case["hist"]:
         op = h["op"]
         if op == "noise":
@@ -174,6 +453,30 @@ def _run_calls(case, cr, pyrandom, insts):
             outs.append({"skipped": 1})
             continue
         g = insts[i] if insts[i] is not None else cr
+        if op == "reseed":       # coba.random.seed(s) on the module generator; on an instance: the object is replaced by CobaRandom(s)
+            if insts[i] is None:
+                cr.seed(mk_seed(h["seed"]))
+            else:
+                insts[i] = cr.CobaRandom(mk_seed(h["seed"]))
+            dead.discard(i)
+            outs.append({"reseed": 1})
+            continue
+        if op == "pickle":       # the object is replaced by its pickle round trip (what multiprocessing does with it)
+            import pickle
+            if insts[i] is None:
+                cr._random = pickle.loads(pickle.dumps(cr._random))
+            else:
+                insts[i] = pickle.loads(pickle.dumps(insts[i]))
+            dead.discard(i)
+            outs.append({"pickle": 1})
+            continue
+        if isinstance(g, _Via):
+            labels = h.get("labels") or list(range(h["n"]))
+            seq = via_seqs.setdefault((i, tuple(labels)), [Item(labels[k], k) for k in range(h["n"])])
+            g.cur["w"] = [(p[0] if p[1] == 1 else tofloat(p)) for p in h["w"]]
+            r = g.obj.predict(None, seq)
+            outs.append({"idx": ident_index(seq, r[0]), "w": q(r[1])})
+            continue
         try:
             if op == "random":
                 outs.append({"rat": q(g.random(tofloat(h["lo"]) if h["lo"][1] != 1 else h["lo"][0], tofloat(h["hi"]) if h["hi"][1] != 1 else h["hi"][0]))})
@@ -190,6 +493,11 @@ def _run_calls(case, cr, pyrandom, insts):
                     r = list(items)
                 elif h.get("iter"):
                     r = g.shuffle(iter(items))
+                elif h.get("cont"):     # other containers: tuple / str / range / generator; inplace=True on a non-list is not legal
+                    src = {"tuple": tuple(items), "range": range(h["n"]), "gen": (x for x in items), "str": "".join(chr(97 + x) for x in items)}[h["cont"]]
+                    r = g.shuffle(src)
+                    if h["cont"] == "str":
+                        r = [ord(x) - 97 for x in r]
                 else:
                     r = g.shuffle(items)
                     if items != list(range(h["n"])):
@@ -214,13 +522,15 @@ def _run_calls(case, cr, pyrandom, insts):
                     outs.append({"idx": ident_index(seq, r), "w": q(rw)})
             elif op == "gauss":
                 outs.append({"gaussv": [g.gauss(h.get("mu", 0), h.get("sigma", 1))]})
+            elif op == "gaussiter":
+                outs.append({"gaussv": [g.gauss(h.get("mu", 0), h.get("sigma", 1)) for _ in range(h["n"])]})
             elif op == "gausses":
                 outs.append({"gaussv": list(g.gausses(h["n"], h.get("mu", 0), h.get("sigma", 1)))})
             else:
                 raise RuntimeError("bad op " + op)
         except tuple(ERRS) as e:
             outs.append({"err": ERRS[type(e)]})
-            if op in ("gauss", "gausses") or type(e) not in (ValueError, IndexError):
+            if op in ("gauss", "gausses", "gaussiter") or type(e) not in (ValueError, IndexError):
                 dead.add(i)     # a generator that raised is finished; documented rejections leave the stream usable
     return outs
 
@@ -237,7 +547,8 @@ class C05(Property):
     thorough_n = 60000
     search_n = 4000
     case_timeout = 60
-    rule = ("histories of 1-30 calls over 1-3 CobaRandom instances + the module-level instance, seeds int/bool/float/str and "
+    rule = ("histories of 1-30 calls over 1-3 CobaRandom instances + the module-level instance (incl. coba.random.seed(s) mid-history, pickle round trips, "
+            "and CobaRandom reached through PMFPredictor/PMFInfoPredictor/SafeLearner incl. re-wrapped SafeLearners), seeds int (up to 2^70)/bool/float/str and "
             "boundary seeds (k-th uniform = 0 or 1-2^-30, computed by modular inverse), dyadic bounds so every float operation is exact; "
             "non-trivial = at least 3 value-returning calls; distinct by canonical JSON of the case")
     trusted_base = [
@@ -267,12 +578,39 @@ class C05(Property):
                     "namespace Coba.Generated\ndef lcgA : Nat := 116646453\ndef lcgC : Nat := 9\ndef lcgM : Nat := 1073741824\n"
                     "def lcgExtracted : Bool := false\nend Coba.Generated\n")
             note = "LCG constants could not be extracted (source reshaped); stream correspondence still pins them"
+        notes = [note]
+        self._write_generated(path, body)
+        # seed-normalisation branches, _next_uniform literals, choice comparator, __reduce__, module delegation, defaults
+        try:
+            facts, nums, missing = extract_source_facts(os.environ.get("COBA_REPO", "/repo"))
+        except Exception as e:      # the file does not even parse / the class is gone: nothing can be read
+            facts, nums, missing = list(MODEL_FACTS), list(MODEL_NUMS), ["*:" + type(e).__name__]
+        lstr = lambda x: '"' + x.replace("\\", "\\\\").replace('"', '\\"') + '"'
+        body2 = ("-- GENERATED by harness/props/c05.py from coba/random.py (ast) on every run; do not edit.\n"
+                 "-- Places whose shape was not recognised keep the model's value and are listed in `notExtracted`.\n"
+                 "namespace Coba.Generated.C05\n"
+                 "def srcFacts : List (String × String) :=\n  [%s]\n"
+                 "def srcNums : List (String × Int) :=\n  [%s]\n"
+                 "def notExtracted : List String := [%s]\n"
+                 "end Coba.Generated.C05\n"
+                 % (",\n   ".join("(%s, %s)" % (lstr(k), lstr(v)) for k, v in facts),
+                    ",\n   ".join("(%s, %d)" % (lstr(k), v) for k, v in nums),
+                    ", ".join(lstr(k) for k in missing)))
+        self._write_generated(os.path.join(lean.LEAN_DIR, "CobaVerif", "Generated", "C05Source.lean"), body2)
+        self._src_diff = [(k, v, dict(MODEL_FACTS + MODEL_NUMS)[k]) for k, v in facts + nums if dict(MODEL_FACTS + MODEL_NUMS)[k] != v]
+        notes.append("source facts read with ast: %d of %d places recognised%s%s" % (
+            len(facts) + len(nums) - len(missing), len(facts) + len(nums),
+            ("; NOT recognised (model value kept): " + ", ".join(missing)) if missing else "",
+            ("; DIFFERENT from the model: " + ", ".join("%s=%r (model %r)" % d for d in self._src_diff)) if self._src_diff else ""))
+        return notes
+
+    @staticmethod
+    def _write_generated(path, body):
         old = open(path, encoding="utf-8").read() if os.path.exists(path) else None
         if old != body:
             os.makedirs(os.path.dirname(path), exist_ok=True)
             with open(path, "w", encoding="utf-8") as f:
                 f.write(body)
-        return [note]
 
     # ---- generators
     def gen_seed(self, rng, boundary_ok=True):
@@ -285,7 +623,8 @@ class C05(Property):
                 s += M * rng.randint(-3, 3)
             return {"kind": "int", "v": s}
         if r < 55:
-            return {"kind": "int", "v": rng.choice([rng.randint(0, 10), rng.randint(-1000, 1000), rng.randint(0, 2 ** 40), -rng.randint(0, 2 ** 35), rng.randint(0, M - 1)])}
+            return {"kind": "int", "v": rng.choice([rng.randint(0, 10), rng.randint(-1000, 1000), rng.randint(0, 2 ** 40), -rng.randint(0, 2 ** 35), rng.randint(0, M - 1),
+                                                      rng.choice([1, -1]) * (rng.randint(2 ** 53, 2 ** 70) | 1)])}
         if r < 60:
             return {"kind": "bool", "v": rng.chance(0.5)}
         if r < 72:
@@ -313,6 +652,8 @@ class C05(Property):
             return [[1, 1]] * (n + rng.randint(1, 2))  # wrong length
         if r < 38:
             return []
+        if r < 42 and n > 0:      # negative members (outside the contract: only the correspondence applies)
+            return [[rng.randint(-3, 4), 1] for _ in range(n)]
         kind = rng.below(3)
         ws = []
         for _ in range(n):
@@ -326,6 +667,56 @@ class C05(Property):
                 ws.append(q(Fraction(rng.randint(1, 7), 2 ** rng.randint(0, 4))))
         return ws
 
+    def gen_pmf(self, rng, n):
+        """a pmf over n members: dyadic (sixteenths), sums to exactly 1, zeros frequent"""
+        k = rng.randint(1, n)
+        pos = []
+        while len(pos) < k:
+            j = rng.below(n)
+            if j not in pos:
+                pos.append(j)
+        c = [0] * n
+        for j in pos:
+            c[j] = 1
+        for _ in range(16 - k):
+            c[pos[rng.below(k)]] += 1
+        return [q(Fraction(x, 16)) for x in c]
+
+    def gen_via_op(self, rng, i):
+        n = rng.choice([1, 2, 2, 3, 3, 3, 4, 5])
+        h = {"i": i, "op": "choicew", "n": n, "w": self.gen_pmf(rng, n)}
+        if n > 1 and rng.chance(0.65):
+            h["labels"] = [rng.below(2) for _ in range(n)]
+        return h
+
+    def gen_via_case(self, rng):
+        """CobaRandom reached through its callers: PMFPredictor / PMFInfoPredictor.predict and SafeLearner.predict on a PMF
+        learner, incl. re-wrapped SafeLearners (of a fresh or of a live wrapper, same or different seed), interleaved"""
+        shape = rng.choice([["pmf"], ["pmfinfo"], ["safe"], ["safe", "rewrap"], ["safe", "rewrap", "rewrap"], ["pmf", "safe", "plain"],
+                            ["safe", "rewrap", "plain"], ["pmfinfo", "pmf"]])
+        seeds = []
+        for kd in shape:
+            sd = self.gen_seed(rng) if rng.chance(0.5) else {"kind": "int", "v": rng.randint(0, 9)}
+            if kd == "plain":
+                pass
+            elif kd == "rewrap":
+                sd["via"] = "safe"
+                live = [j for j, x in enumerate(seeds) if x.get("via") == "safe" and "of" not in x]
+                if live and rng.chance(0.7):
+                    sd["of"] = rng.choice(live)
+                    if rng.chance(0.3):
+                        sd["kind"], sd["v"] = seeds[sd["of"]]["kind"], seeds[sd["of"]]["v"]      # re-wrapped with the SAME seed
+                else:
+                    sd["inner"] = {"kind": "int", "v": rng.randint(0, 9)}
+            else:
+                sd["via"] = kd
+            seeds.append(sd)
+        hist = []
+        for _ in range(rng.choice([3, 5, 8, 12, 16])):
+            i = rng.below(len(seeds))
+            hist.append(self.gen_via_op(rng, i) if seeds[i].get("via") else self.gen_op(rng, i))
+        return {"seeds": seeds, "hist": hist}
+
     def gen_op(self, rng, i):
         r = rng.below(100)
         if r < 18:
@@ -333,6 +724,8 @@ class C05(Property):
             d = Fraction(rng.randint(1, 2 ** 9), 2 ** rng.choice([0, 0, 1, 4, 8]))
             if rng.chance(0.2):
                 lo, d = Fraction(0), Fraction(1)
+            if rng.chance(0.06):      # degenerate / reversed bounds: accepted by the code, outside the [min,max) contract
+                d = rng.choice([Fraction(0), -d])
             return {"i": i, "op": "random", "lo": q(lo), "hi": q(lo + d), "exact": True}
         if r < 24:   # wide bounds: float rounding may occur (tolerance comparison)
             e = rng.randint(10, 20)
@@ -352,6 +745,8 @@ class C05(Property):
         if r < 44:
             a = rng.choice([0, 1, rng.randint(-1000, 1000), rng.randint(-1000, 1000), 10 ** 12, -(10 ** 12), 2 ** 53 + 1, -(2 ** 53) - 3, 2 ** 62])
             b = a + rng.choice([0, 1, 2, 5, rng.randint(0, 50), rng.randint(0, 2 ** 22)])
+            if rng.chance(0.08):      # a > b: accepted by the code (empty interval, outside the contract)
+                b = a - rng.choice([1, 2, 7, 100])
             return {"i": i, "op": "randint", "a": a, "b": b}
         if r < 50:
             a = rng.choice([0, 0, 1, rng.randint(-1000, 1000), rng.randint(-1000, 1000), 10 ** 12, 2 ** 53 + 1, -(2 ** 53) - 3])
@@ -359,11 +754,13 @@ class C05(Property):
             return {"i": i, "op": "randints", "n": rng.randint(0, 5), "a": a, "b": b}
         if r < 64:
             h = {"i": i, "op": "shuffle", "n": rng.choice([0, 1, 2, 2, 3, 4, 5, 7, 9])}
-            m = rng.below(4)
+            m = rng.below(5)
             if m == 0:
                 h["inplace"] = True
             elif m == 1:
                 h["iter"] = True
+            elif m == 4:
+                h["cont"] = rng.choice(["tuple", "range", "gen", "str"])
             return h
         if r < 76:
             n = rng.choice([0, 1, 1, 2, 2, 3, 4, 6]) if rng.chance(0.15) else rng.choice([1, 1, 2, 2, 3, 4, 6])
@@ -388,12 +785,25 @@ class C05(Property):
             if rng.chance(0.3):
                 h["mu"], h["sigma"] = rng.randint(-5, 5), rng.randint(0, 4)
             return h
-        h = {"i": i, "op": "gausses", "n": rng.randint(0, 5)}
+        h = {"i": i, "op": "gausses" if rng.chance(0.6) else "gaussiter", "n": rng.randint(0, 5)}
         if rng.chance(0.3):
             h["mu"], h["sigma"] = rng.randint(-5, 5), rng.randint(0, 4)
         return h
 
+    def gen_entry(self, rng, seeds):
+        i = rng.below(len(seeds))
+        if seeds[i].get("module"):
+            if rng.chance(0.12):      # coba.random.seed(s) in the middle of a history
+                return {"i": i, "op": "reseed", "seed": self.gen_seed(rng)}
+        elif rng.chance(0.06):        # the generator object goes through pickle (multiprocessing)
+            return {"i": i, "op": "pickle"}
+        elif rng.chance(0.02):
+            return {"i": i, "op": "reseed", "seed": self.gen_seed(rng)}
+        return self.gen_op(rng, i)
+
     def generate(self, rng, tier):
+        if rng.chance(0.12):
+            return self.gen_via_case(rng)
         ninst = rng.choice([1, 1, 2, 2, 3])
         seeds = [self.gen_seed(rng) for _ in range(ninst)]
         if rng.chance(0.35):
@@ -406,7 +816,7 @@ class C05(Property):
             if rng.chance(0.12):
                 hist.append({"op": "noise", "what": rng.choice(["pyseed", "pyrandom", "other", "newinst"]), "v": rng.randint(0, 99)})
             else:
-                hist.append(self.gen_op(rng, rng.below(len(seeds))))
+                hist.append(self.gen_entry(rng, seeds))
         case = {"seeds": seeds, "hist": hist}
         if rng.chance(0.01 if tier == "quick" else 0.003):
             case["subprocess"] = True
@@ -471,8 +881,60 @@ class C05(Property):
             cs.append({"seeds": [{"kind": "int", "v": s}], "hist": [{"i": 0, "op": "randint", "a": 10 ** 12, "b": 10 ** 12 + 5},
                                                                      {"i": 0, "op": "randint", "a": 2 ** 53 + 1, "b": 2 ** 53 + 3},
                                                                      {"i": 0, "op": "randints", "n": 3, "a": -(2 ** 53) - 3, "b": -(2 ** 53) - 1}]})
+        cs += self.corpus_phase4()
         cs.append({"seeds": [{"kind": "str", "v": "abc"}, {"kind": "float", "v": "1.5"}, {"kind": "float", "v": "3.0"}],
                    "hist": [dict(one, i=0), dict(one, i=1), dict(one, i=2), {"i": 0, "op": "shuffle", "n": 6}], "subprocess": True})
+        return cs
+
+    def corpus_phase4(self):
+        cs = []
+        one = {"i": 0, "op": "random", "lo": [0, 1], "hi": [1, 1], "exact": True}
+        S = lambda v, **kw: dict({"kind": "int", "v": v}, **kw)
+        # round g (gm2): the probability reported with the sampled member, through the callers, with EQUAL members of different weight
+        dup = [{"op": "choicew", "n": 3, "labels": [0, 1, 0], "w": [[0, 1], [1, 4], [3, 4]]},
+               {"op": "choicew", "n": 3, "labels": [1, 1, 1], "w": [[0, 1], [0, 1], [1, 1]]},
+               {"op": "choicew", "n": 4, "labels": [0, 0, 1, 1], "w": [[1, 8], [3, 8], [0, 1], [1, 2]]},
+               {"op": "choicew", "n": 2, "labels": [5, 5], "w": [[1, 4], [3, 4]]}]
+        for via in ("pmf", "pmfinfo", "safe"):
+            for s in (1, 3):
+                cs.append({"seeds": [S(s, via=via)], "hist": [dict(h, i=0) for h in dup + dup]})
+        cs.append({"seeds": [S(2)], "hist": [dict(h, i=0) for h in dup + dup]})
+        # round g (gm4): re-wrapped SafeLearners -- different seed, same seed, of one live wrapper, interleaved with it
+        w4 = [[1, 8], [1, 4], [1, 8], [1, 2]]
+        cw = lambda i: {"i": i, "op": "choicew", "n": 4, "w": w4}
+        cs.append({"seeds": [S(5, via="safe", inner=S(1))], "hist": [cw(0)] * 6})
+        cs.append({"seeds": [S(1, via="safe"), S(7, via="safe", of=0), S(7, via="safe", of=0)],
+                   "hist": [cw(1), cw(2), cw(2), cw(0)] * 4})
+        cs.append({"seeds": [S(1, via="safe"), S(1, via="safe", of=0)], "hist": [cw(0), cw(1), cw(1), cw(0), cw(1)] * 2})
+        cs.append({"seeds": [S(1, via="safe"), S(7, via="safe", of=0), S(7)], "hist": [cw(1), cw(0), cw(2)] * 4})
+        cs.append({"seeds": [{"kind": "float", "v": "0.0", "via": "safe", "inner": S(3)}, {"kind": "str", "v": "abc", "via": "pmf"}],
+                   "hist": [cw(0), cw(1)] * 4})
+        # module-level generator: seed() in the middle of a history, after a buffered gaussian, against an instance with the same seed
+        for s in (0, 7, seed_for(1, 0)):
+            cs.append({"seeds": [S(3, module=True), S(s)], "hist": [
+                dict(one, i=0), {"i": 0, "op": "gauss"}, {"i": 0, "op": "reseed", "seed": S(s)},
+                {"i": 0, "op": "gauss"}, {"i": 1, "op": "gauss"}, {"i": 0, "op": "randint", "a": 1, "b": 6}, {"i": 1, "op": "randint", "a": 1, "b": 6},
+                {"i": 0, "op": "shuffle", "n": 5}, {"i": 1, "op": "shuffle", "n": 5}, {"i": 0, "op": "choicew", "n": 3, "w": [[1, 4], [0, 1], [3, 4]]},
+                {"i": 0, "op": "randoms", "n": 2, "lo": [1, 1], "hi": [2, 1], "exact": True}, {"i": 0, "op": "randints", "n": 2, "a": 0, "b": 9},
+                {"i": 0, "op": "gausses", "n": 3}, {"i": 0, "op": "choice", "n": 4, "w": None}, dict(one, i=0)]})
+        # pickling: restores the seed (all kinds of seed), not the position
+        for sd in (S(7), S(2 ** 40 + 3), S(-5), S(2 ** 62 + 5), S(-(2 ** 70) - 1), S(2 ** 53 + 1), {"kind": "float", "v": "1.5"}, {"kind": "float", "v": "3.0"}, {"kind": "str", "v": "abc"}, {"kind": "bool", "v": True}):
+            cs.append({"seeds": [sd], "hist": [dict(one, i=0), {"i": 0, "op": "gauss"}, {"i": 0, "op": "pickle"}, dict(one, i=0), {"i": 0, "op": "gauss"},
+                                                {"i": 0, "op": "gauss"}, {"i": 0, "op": "shuffle", "n": 4}]})
+        # argument shapes accepted by the code
+        for s in (1, seed_for(1, 0), seed_for(1, M - 1)):
+            cs.append({"seeds": [S(s)], "hist": [
+                {"i": 0, "op": "randint", "a": 5, "b": 5}, {"i": 0, "op": "randint", "a": 5, "b": 4}, {"i": 0, "op": "randint", "a": 9, "b": 2},
+                {"i": 0, "op": "randints", "n": 0, "a": 1, "b": 3}, {"i": 0, "op": "randoms", "n": 0, "lo": [0, 1], "hi": [1, 1], "exact": True},
+                {"i": 0, "op": "random", "lo": [3, 1], "hi": [3, 1], "exact": True}, {"i": 0, "op": "random", "lo": [3, 1], "hi": [1, 1], "exact": True},
+                {"i": 0, "op": "randint", "a": 2 ** 62, "b": 2 ** 62 + 2 ** 22},
+                {"i": 0, "op": "shuffle", "n": 4, "cont": "tuple"}, {"i": 0, "op": "shuffle", "n": 4, "cont": "str"}, {"i": 0, "op": "shuffle", "n": 3, "cont": "gen"},
+                {"i": 0, "op": "shuffle", "n": 1, "cont": "range"}, {"i": 0, "op": "shuffle", "n": 0, "cont": "gen"},
+                {"i": 0, "op": "choice", "n": 1, "w": [[1, 2]]}, {"i": 0, "op": "choicew", "n": 1, "w": [[5, 1]]}, {"i": 0, "op": "choice", "n": 1, "w": None},
+                {"i": 0, "op": "choice", "n": 3, "w": [[3, 1], [-1, 1], [2, 1]]},
+                {"i": 0, "op": "choice", "n": 2, "w": [[0, 1], [0, 1]]}, dict(one, i=0),
+                {"i": 0, "op": "gaussiter", "n": 3}, {"i": 0, "op": "gausses", "n": 2}, {"i": 0, "op": "gaussiter", "n": 1}, {"i": 0, "op": "gausses", "n": 0}, dict(one, i=0),
+                {"i": 0, "op": "choice", "n": 1, "w": [[-1, 1]]}]})      # negative total: StopIteration (choice_negative_total_counterexample)
         return cs
 
     # ---- evaluation
@@ -501,14 +963,22 @@ class C05(Property):
             if op == "noise" or "skipped" in o:
                 continue
             tags.append("op:" + op)
+            if op in ("reseed", "pickle"):
+                continue
+            via = case["seeds"][h["i"]].get("via")
+            if via:
+                sdi = case["seeds"][h["i"]]
+                tags.append("via:" + via + ("-rewrap-live" if "of" in sdi else "-rewrap" if "inner" in sdi else ""))
+                if h.get("labels") and len(set(h["labels"])) < h["n"]:
+                    tags.append("via:equal-members")
             if "err" in o:
                 tags.append("err:" + o["err"])
                 legit = True
                 if op in ("choice", "choicew"):
                     w = h.get("w")
                     n = h["n"]
-                    if n == 0 or (w is not None and (len(w) != n or sum(unq(p) for p in w) == 0)):
-                        legit = False       # documented rejections / empty sequence
+                    if n == 0 or (w is not None and (len(w) != n or sum(unq(p) for p in w) == 0 or any(unq(p) < 0 for p in w))):
+                        legit = False       # documented rejections / empty sequence / negative weights (outside the contract)
                 if op in ("randoms", "randints", "gausses") and h.get("n", 1) < 0:
                     legit = False
                 if legit:
@@ -519,6 +989,11 @@ class C05(Property):
             if op in ("random", "randoms"):
                 lo, hi = unq(h["lo"]), unq(h["hi"])
                 xs = [o["rat"]] if op == "random" else o["rats"]
+                if lo >= hi:
+                    tags.append("random:min>=max")
+                    if lo == hi and any(unq(x) != lo for x in xs):
+                        fails.append(F("B", "%s(%s,%s) returned %s" % (op, lo, hi, xs), "random-degenerate-not-min"))
+                    continue        # [min,max) is empty: only the correspondence applies
                 if op == "randoms" and len(xs) != h["n"]:
                     fails.append(F("B", "randoms(%d) returned %d values" % (h["n"], len(xs)), "randoms-length"))
                 for x in xs:
@@ -534,6 +1009,11 @@ class C05(Property):
                 xs = [o["int"]] if op == "randint" else o["ints"]
                 if op == "randints" and len(xs) != h["n"]:
                     fails.append(F("B", "randints(%d) returned %d values" % (h["n"], len(xs)), "randints-length"))
+                if h["a"] > h["b"]:
+                    tags.append("randint:a>b")
+                    continue        # [a,b] is empty: only the correspondence applies (theorem randint_reversed)
+                if h["a"] == h["b"]:
+                    tags.append("randint:a=b")
                 for x in xs:
                     if not (h["a"] <= x <= h["b"]):
                         fails.append(F("B", "%s(%d,%d) returned %d" % (op, h["a"], h["b"], x), "randint-out-of-range"))
@@ -543,6 +1023,9 @@ class C05(Property):
             elif op in ("choice", "choicew"):
                 w = h.get("w")
                 i = o["idx"]
+                if w is not None and any(unq(p) < 0 for p in w):
+                    tags.append("choice:negative-weight")
+                    continue        # negative weights are outside the contract: only the correspondence applies
                 if w is not None:
                     if unq(w[i]) == 0:
                         fails.append(F("B", "%s returned member %d whose weight is 0 (weights %s, seeds %s)" % (op, i, w, json.dumps(case["seeds"])), "choice-zero-weight"))
@@ -550,15 +1033,15 @@ class C05(Property):
                         fails.append(F("B", "choicew reported weight %s for member %d whose weight is %s" % (o["w"], i, w[i]), "choicew-wrong-weight"))
                 elif op == "choicew" and unq(o["w"]) != unq(q(1 / h["n"])):
                     fails.append(F("B", "choicew without weights reported %s, expected 1/%d" % (o["w"], h["n"]), "choicew-wrong-weight"))
-            elif op in ("gauss", "gausses"):
-                if op == "gausses" and len(o["gaussv"]) != h["n"]:
+            elif op in ("gauss", "gausses", "gaussiter"):
+                if op != "gauss" and len(o["gaussv"]) != h["n"]:
                     fails.append(F("B", "gausses(%d) returned %d values" % (h["n"], len(o["gaussv"])), "gausses-length"))
                 for v in o["gaussv"]:
                     if not (isinstance(v, float) and math.isfinite(v)):
                         fails.append(F("B", "gauss returned %r" % (v,), "gauss-not-finite"))
         # (B) purity: each instance alone (fresh objects, no noise) gives the same values
         for i in range(len(case["seeds"])):
-            alone = {"seeds": [dict(case["seeds"][i])], "hist": [dict(h, i=0) for h in hist if h.get("i") == i]}
+            alone = {"seeds": [standalone_seed(case, i)], "hist": [dict(h, i=0) for h in hist if h.get("i") == i]}
             if len(case["seeds"]) == 1 and not any(h["op"] == "noise" for h in hist):
                 break
             exp = run_history(alone)
@@ -566,6 +1049,37 @@ class C05(Property):
             if json.dumps(exp, default=str) != json.dumps(got, default=str):
                 fails.append(F("B", "instance %d (seed %s) produced different values when its calls were interleaved with other generators: alone %s, interleaved %s"
                                % (i, case["seeds"][i], json.dumps(exp, default=str)[:300], json.dumps(got, default=str)[:300]), "not-pure-interleaving"))
+        # (B) a function of the SEED: the module-level functions and the callers (PMFPredictor, PMFInfoPredictor, SafeLearner --
+        # however often re-wrapped) give what a CobaRandom created with that seed gives for the same calls; after seed(s) / a pickle
+        # round trip the values are those of a brand-new CobaRandom of the (new / stored) seed
+        for i, sd in enumerate(case["seeds"]):
+            own = [(h, o) for h, o in zip(hist, impl) if h.get("i") == i]
+            if any("skipped" in o for _, o in own):
+                continue
+            if sd.get("module") or sd.get("via"):
+                ref = run_history({"seeds": [plain_seed(sd)], "hist": [dict(h, i=0) for h, _ in own]})
+                got = [o for _, o in own]
+                if json.dumps(ref, default=str) != json.dumps(got, default=str):
+                    what = "the module-level functions (coba.random.seed(s); coba.random.f(...))" if sd.get("module") else \
+                        {"pmf": "PMFPredictor(pmf,seed).predict", "pmfinfo": "PMFInfoPredictor(pmf,seed).predict"}.get(sd["via"], "SafeLearner(%slearner,seed).predict" % ("SafeLearner(..)-wrapped " if ("of" in sd or "inner" in sd) else ""))
+                    k = next((j for j, (a, b) in enumerate(zip(ref, got)) if json.dumps(a, default=str) != json.dumps(b, default=str)), 0)
+                    fails.append(F("B", "instance %d (seed %s): %s did not give the values CobaRandom(seed) gives for the same calls; call %d %s: CobaRandom %s, got %s"
+                                   % (i, json.dumps(sd), what, k, json.dumps(own[k][0]), json.dumps(ref[k], default=str)[:160], json.dumps(got[k], default=str)[:160]),
+                                   "module-differs-from-instance" if sd.get("module") else "caller-not-seed-stream:" + sd["via"] + ("-rewrap" if ("of" in sd or "inner" in sd) else "")))
+            ev = [k for k, (h, _) in enumerate(own) if h["op"] in ("reseed", "pickle")]
+            if ev and not sd.get("via"):
+                eff = plain_seed(sd)
+                for k in ev:
+                    if own[k][0]["op"] == "reseed":
+                        eff = plain_seed(own[k][0]["seed"])
+                post = own[ev[-1] + 1:]
+                ref = run_history({"seeds": [eff], "hist": [dict(h, i=0) for h, _ in post]})
+                if json.dumps(ref, default=str) != json.dumps([o for _, o in post], default=str):
+                    last = own[ev[-1]][0]["op"]
+                    fails.append(F("B", "instance %d (seed %s%s): after %s the values are not those of a new CobaRandom(%s): expected %s, got %s"
+                                   % (i, json.dumps(sd), " module-level" if sd.get("module") else "", "coba.random.seed(s)" if last == "reseed" else "a pickle round trip",
+                                      json.dumps(eff), json.dumps(ref, default=str)[:200], json.dumps([o for _, o in post], default=str)[:200]),
+                                   "reseed-not-fresh-stream" if last == "reseed" else "unpickled-not-seed-stream"))
         if len(case["seeds"]) > 1:
             tags.append("multi-instance")
         # (B) repeatability incl. another process
@@ -593,12 +1107,31 @@ class C05(Property):
             for k, (h, o) in enumerate(zip(hist, impl)):
                 if h["op"] == "noise" or "skipped" in o:
                     continue
+                if h["op"] == "reseed":
+                    mhist.append({"i": h["i"], "op": "reseed", "seed": seed_for_model(h["seed"])})
+                    continue
+                if h["op"] == "pickle":
+                    mhist.append({"i": h["i"], "op": "pickle"})
+                    continue
                 mh = {kk: vv for kk, vv in h.items() if kk in ("i", "op", "lo", "hi", "n", "a", "b", "w")}
                 mhist.append(mh)
-                midx.append(k)
+                midx.extend([k] * (h["n"] if h["op"] == "gaussiter" else 1))     # the model runs n single gauss() calls
             ans = driver.ask({"seeds": [seed_for_model(s) for s in case["seeds"]], "hist": mhist})
             model = ans["model"]
+            merged, order = {}, []
+            if len(model) != len(midx):
+                fails.append(F("A", "model produced %d outputs for %d value-returning calls" % (len(model), len(midx)), "A:count"))
             for (inst, mo), k in zip(model, midx):
+                if hist[k]["op"] == "gaussiter" and "gauss" in mo:
+                    if k not in merged:
+                        merged[k] = (inst, {"gauss": []})
+                        order.append(k)
+                    merged[k][1]["gauss"].extend(mo["gauss"])
+                else:
+                    merged[k] = (inst, mo)
+                    order.append(k)
+            for k in order:
+                inst, mo = merged[k]
                 h, o = hist[k], impl[k]
                 d = self.compare(h, o, mo)
                 if d:
@@ -639,7 +1172,7 @@ class C05(Property):
             if o["idx"] != mo["idx"]:
                 return "index differs"
             return None if unq(o["w"]) == unq(mo["w"]) or abs(unq(o["w"]) - unq(mo["w"])) <= Fraction(1, 10 ** 15) else "weight differs"
-        if op in ("gauss", "gausses"):
+        if op in ("gauss", "gausses", "gaussiter"):
             ds = mo["gauss"]
             if len(ds) != len(o["gaussv"]):
                 return "length differs"
@@ -672,12 +1205,12 @@ class C05(Property):
         if len(case["seeds"]) > 1:
             for i in range(len(case["seeds"])):
                 used = [h for h in hist if h.get("i") == i]
-                if not used:
-                    seeds = case["seeds"][:i] + case["seeds"][i + 1:]
+                if not used and not any(x.get("of") == i for x in case["seeds"]):
+                    seeds = [dict(x, of=x["of"] - 1) if x.get("of", -1) > i else x for x in case["seeds"][:i] + case["seeds"][i + 1:]]
                     nh = [dict(h, i=h["i"] - 1) if h.get("i", -1) > i else h for h in hist]
                     yield dict(case, seeds=seeds, hist=nh)
         for k, h in enumerate(hist):
-            if h.get("n", 0) > 1 and h["op"] in ("randoms", "randints", "gausses"):
+            if h.get("n", 0) > 1 and h["op"] in ("randoms", "randints", "gausses", "gaussiter"):
                 yield dict(case, hist=hist[:k] + [dict(h, n=h["n"] - 1)] + hist[k + 1:])
 
     def snippet(self, case):
